@@ -517,10 +517,45 @@ static void body_libio(int k, Log& log) {
   }
 }
 
+// B10: every form of slot tag the library offers; each (T, Slot) pair is its own per-thread value
+struct SlotTag;
+template <class TL>
+static void slot_step(TL& tl, int expect, const char* name, Log& log) {
+  YP();
+  log.push_back(std::string(name) + "=" + std::to_string((long)tl.Get()) + (tl.Get() == expect ? "" : " UNEXPECTED(" + std::to_string(expect) + ")"));
+}
+static void body_tls_slots(int k, Log& log) {
+  const int v = 1000 * (k + 1);
+  nop::ThreadLocal<int> s0{v + 0};
+  nop::ThreadLocal<int, nop::ThreadLocalSlot<void, 1>> s1{v + 1};
+  nop::ThreadLocal<int, nop::ThreadLocalSlot<SlotTag, 0>> s2{v + 2};
+  nop::ThreadLocal<int, nop::ThreadLocalSlot<SlotTag, 1>> s3{v + 3};
+  nop::ThreadLocal<int, nop::ThreadLocalTypeSlot<SlotTag>> s4{v + 4};
+  nop::ThreadLocal<int, nop::ThreadLocalIndexSlot<0>> s5{v + 5};
+  nop::ThreadLocal<int, nop::ThreadLocalIndexSlot<1>> s6{v + 6};
+  nop::ThreadLocal<int, nop::ThreadLocalTypeSlot<void>> s7{v + 7};
+  nop::ThreadLocal<long, nop::ThreadLocalSlot<SlotTag, 0>> s8{(long)v + 8};
+  // first initialisation of each pair in this thread: every one holds its own value
+  slot_step(s0, v + 0, "default", log); slot_step(s1, v + 1, "Slot<void,1>", log); slot_step(s2, v + 2, "Slot<Tag,0>", log);
+  slot_step(s3, v + 3, "Slot<Tag,1>", log); slot_step(s4, v + 4, "TypeSlot<Tag>", log); slot_step(s5, v + 5, "IndexSlot<0>", log);
+  slot_step(s6, v + 6, "IndexSlot<1>", log); slot_step(s7, v + 7, "TypeSlot<void>", log); slot_step(s8, v + 8, "long/Slot<Tag,0>", log);
+  // a write through one is seen through none of the others
+  s4.Get() = v + 44; s2.Get() += 20; s0.Get() = -v;
+  slot_step(s0, -v, "default'", log); slot_step(s1, v + 1, "Slot<void,1>'", log); slot_step(s2, v + 22, "Slot<Tag,0>'", log);
+  slot_step(s3, v + 3, "Slot<Tag,1>'", log); slot_step(s4, v + 44, "TypeSlot<Tag>'", log); slot_step(s5, v + 5, "IndexSlot<0>'", log);
+  slot_step(s7, v + 7, "TypeSlot<void>'", log); slot_step(s8, v + 8, "long/Slot<Tag,0>'", log);
+  // Clear + Initialize of one re-seeds only that one
+  s2.Clear(); YP(); s2.Initialize(v + 222);
+  s7.Clear(); YP(); s7.Initialize(v + 777);
+  slot_step(s2, v + 222, "Slot<Tag,0>''", log); slot_step(s4, v + 44, "TypeSlot<Tag>''", log); slot_step(s0, -v, "default''", log);
+  slot_step(s7, v + 777, "TypeSlot<void>''", log); slot_step(s8, v + 8, "long/Slot<Tag,0>''", log);
+  s0.Clear(); s1.Clear(); s2.Clear(); s3.Clear(); s4.Clear(); s5.Clear(); s6.Clear(); s7.Clear(); s8.Clear();
+}
+
 struct Body { const char* name; void (*fn)(int, Log&); };
 static const Body kBodies[] = {{"roundtrip", body_roundtrip}, {"table", body_table}, {"values", body_values}, {"rpc", body_rpc},
-                               {"tlsA", body_tls_a}, {"tlsB", body_tls_b}, {"rpcMethod", body_rpc_method}, {"tlsCtor", body_tls_ctor}, {"wide", body_wide}, {"libio", body_libio}};
-static const int kNumBodies = 10;
+                               {"tlsA", body_tls_a}, {"tlsB", body_tls_b}, {"rpcMethod", body_rpc_method}, {"tlsCtor", body_tls_ctor}, {"wide", body_wide}, {"libio", body_libio}, {"tlsSlots", body_tls_slots}};
+static const int kNumBodies = 11;
 
 static std::string join(const Log& l) { std::string s; for (auto& x : l) s += x + "\n"; return s; }
 
@@ -530,6 +565,11 @@ static void explore_set(const std::vector<int>& set, int bound) {
   // solo logs: body b run alone as thread index i (values depend on the thread index)
   std::vector<Log> solo(set.size());
   for (size_t i = 0; i < set.size(); i++) kBodies[set[i]].fn((int)i, solo[i]);
+  // the bodies check their own expectations even when running alone (round trip equality, slot independence)
+  for (size_t i = 0; i < set.size(); i++)
+    for (auto& line : solo[i])
+      if (line.find("UNEXPECTED") != std::string::npos || line.find("DIFFERENT") != std::string::npos)
+        R.viol(std::string("C19|sequential|") + kBodies[set[i]].name, "C19|" + tag + "|", "body " + std::string(kBodies[set[i]].name) + " run alone observes '" + line + "'");
   std::vector<Log> logs(set.size());
   std::vector<std::function<void()>> bodies;
   for (size_t i = 0; i < set.size(); i++) bodies.push_back([&, i] { kBodies[set[i]].fn((int)i, logs[i]); });
@@ -670,6 +710,8 @@ int main(int argc, char** argv) {
   sets.push_back({0, 8});
   sets.push_back({1, 8});
   sets.push_back({9, 9});  // the library's readers/writers share code only with themselves
+  sets.push_back({10, 10});
+  sets.push_back({4, 10});
   sets.push_back({4, 4, 5});
   if (A.thorough()) { sets.push_back({0, 0, 0}); sets.push_back({4, 5, 5}); sets.push_back({0, 1, 4}); }
   for (size_t i = 0; i < sets.size(); i++) {
